@@ -44,10 +44,8 @@ TRUSTED = [
 ASSUMPTIONS = [
     "inputs are well-typed formulas built through the public FormulaManager constructors",
     "the memoised DAG walk equals bottom-up structural recursion (proved separately: proofs/DagWalk_proofs.v)",
-    "Int(1), Int(-1) exist in the manager when Pow with base 1/-1 and a negative exponent is folded (float result "
-    "looked up in the Int cache)",
-    "not modelled (model answers 'raises'; generator avoids): Pow with a non-integer exponent (C pow on doubles), "
-    "Int base with |b|>=2 and an exponent so negative that b**e underflows to 0.0; code points >= 256 in str.to_int",
+    "not modelled (model answers 'raises'; generator avoids): Pow with a non-integer exponent (C pow on doubles); "
+    "code points >= 256 in str.to_int (Unicode digits / spaces accepted by int())",
     "a rule's intermediate nodes (e.g. Not(s) built only to be inspected) are assumed to pass create_node's type check",
 ]
 RULE = ("for every generated well-typed formula f: Simplifier.simplify(f) of the implementation equals the Coq model's "
@@ -219,9 +217,6 @@ class EnvCtx(object):
     def __enter__(self):
         self.env = Environment()
         pysmt.environment.push_env(self.env)
-        m = self.env.formula_manager
-        for v in (0, 1, -1):
-            m.Int(v)
         return self.env
 
     def __exit__(self, *a):
@@ -463,15 +458,14 @@ def detail(s):
                 return "negative-start"
             if i + n < 0:
                 return "negative-end"
+        if nt == op.EQUALS and a[0].is_array_value() and a[1].is_array_value():
+            def finite_inner(x):
+                return any(e.is_array_value() and (e.array_value_index_type().is_bv_type() or e.array_value_index_type().is_bool_type())
+                           for e in x.args())
+            if finite_inner(a[0]) or finite_inner(a[1]):
+                return "elements-are-arrays-over-a-finite-index-sort"
         if nt == op.POW and a[1].is_constant():
             return "negative-exponent" if a[1].constant_value() < 0 else "nonnegative-exponent"
-        if nt == op.DIV and a[0].is_int_constant() and a[1].is_int_constant():
-            l, r = a[0].constant_value(), a[1].constant_value()
-            try:
-                float(l), float(r)
-            except OverflowError:
-                return "float-overflow"
-            return "float-rounding"
     except Exception:  # noqa
         pass
     return ""
@@ -824,6 +818,16 @@ class Directed(object):
                 out += [av, m.Select(av, k), m.Store(av, k, v), m.Select(m.Store(av, k, v), self.rnd.choice(ks)),
                         m.Equals(av, m.Array(it, self.rnd.choice(vs), {k: v})), m.Equals(av, sym),
                         m.Store(sym, k, v), m.Select(m.Store(sym, k, v), k)]
+        # distinct constant array NODES with the same extension (finite index sort), nested under an infinite one
+        b1 = BVType(1)
+        in1 = m.Array(b1, m.Int(0), {m.BV(0, 1): m.Int(1), m.BV(1, 1): m.Int(1)})
+        in2 = m.Array(b1, m.Int(1))
+        inb1 = m.Array(BOOL, m.Int(0), {m.TRUE(): m.Int(1), m.FALSE(): m.Int(1)})
+        inb2 = m.Array(BOOL, m.Int(1))
+        out += [m.Equals(in1, in2), m.Equals(inb1, inb2), m.Equals(m.Array(INT, in1), m.Array(INT, in2)),
+                m.Equals(m.Array(INT, inb1), m.Array(INT, inb2)),
+                m.Equals(m.Array(INT, in2, {c[1]: in1}), m.Array(INT, in2)),
+                m.Equals(m.Array(STRING, in1), m.Array(STRING, in2, {m.String("a"): in1}))]
         AA = ArrayType(INT, A)
         aa = m.Symbol("aa", AA)
         nested = m.Array(INT, avs[0], {c[1]: avs[2], c[2]: a})
@@ -859,13 +863,74 @@ class Directed(object):
                    [r, j, i, q, p], [p, i, q, j, r]]
         for vs, bd in self.pick(itertools.product(varsets, bodies), 8 * self.cap):
             out += [m.ForAll(vs, bd), m.Exists(vs, bd)]
-        for vs, bd in self.pick(itertools.product(varsets, bodies), 2 * self.cap):
+        small = [vs for vs in varsets if len(vs) <= 2]      # nesting multiplies the oracle's enumeration cost
+        for vs, bd in self.pick(itertools.product(small, bodies), 2 * self.cap):
             inner = m.Exists(vs, bd)
-            vs2 = self.rnd.choice(varsets)
+            vs2 = self.rnd.choice(small)
             out += [m.ForAll(vs2, inner), m.ForAll(vs2, m.And(inner, self.rnd.choice(bodies))),
                     m.Iff(m.ForAll(vs, bd), m.ForAll(list(reversed(vs)), bd)),
                     m.Not(m.ForAll(vs, m.Not(bd)))]
         return out
+
+
+# ----------------------------------------------------------------------------------------------
+# Regression cases: the minimal inputs of the repaired findings must give the standard's value
+# ----------------------------------------------------------------------------------------------
+
+def regression_cases(m):
+    """(name, formula, expected simplified formula)"""
+    I, R, S, T_, F_ = m.Int, m.Real, m.String, m.TRUE(), m.FALSE()
+    i, r = m.Symbol("i", INT), m.Symbol("r", REAL)
+    def c(x, sym):          # a term that SIMPLIFIES to the constant x
+        return m.Ite(T_, x, sym)
+    return [
+        ("1b75a86 equals-different-constant-arrays", m.Equals(m.Array(INT, I(0)), m.Array(INT, I(1))), F_),
+        ("1b75a86 equals-same-constant-arrays", m.Equals(m.Array(INT, I(0), {I(1): I(2)}), m.Array(INT, I(0), {I(1): I(2)})), T_),
+        ("9f007e7 equals-constant-arrays-assignment", m.Equals(m.Array(INT, I(0), {I(1): I(2)}), m.Array(INT, I(0))), F_),
+        ("392de82 equals-nested-finite-index-arrays",
+         m.Equals(m.Array(INT, m.Array(BVType(1), I(0), {m.BV(0, 1): I(1), m.BV(1, 1): I(1)})), m.Array(INT, m.Array(BVType(1), I(1)))),
+         m.Equals(m.Array(INT, m.Array(BVType(1), I(0), {m.BV(0, 1): I(1), m.BV(1, 1): I(1)})), m.Array(INT, m.Array(BVType(1), I(1))))),
+        ("b53ca1b div-beyond-2^53", m.Div(c(I(2 ** 70), i), I(3)), I(2 ** 70 // 3)),
+        ("b53ca1b div-negative-divisor", m.Div(c(I(2 ** 70 + 1), i), I(-7)), I(-((2 ** 70 + 1) // 7))),
+        ("b53ca1b div-negative-dividend", m.Div(c(I(-(2 ** 70) - 1), i), I(7)), I((-(2 ** 70) - 1) // 7)),
+        ("b53ca1b div-beyond-double", m.Div(c(I(2 ** 1024), i), I(1)), I(2 ** 1024)),
+        ("c3b06aa pow-int-constants-real", m.Pow(c(I(0), i), I(0)), R(1)),
+        ("c3b06aa pow-int-negative-exponent", m.Pow(c(I(2), i), I(-1)), R(Fraction(1, 2))),
+        ("c3b06aa pow-one-negative-exponent", m.Pow(c(I(1), i), I(-1)), R(1)),
+        ("c3b06aa pow-under-plus", m.Plus(m.Pow(c(I(2), i), I(3)), r), m.Plus(r, R(8))),
+        ("da819cb str.to_int-sign", m.StrToInt(S("-5")), I(-1)),
+        ("da819cb str.to_int-plus", m.StrToInt(S("+5")), I(-1)),
+        ("da819cb str.to_int-space", m.StrToInt(S(" 12")), I(-1)),
+        ("da819cb str.to_int-underscore", m.StrToInt(S("1_0")), I(-1)),
+        ("da819cb str.to_int-empty", m.StrToInt(S("")), I(-1)),
+        ("da819cb str.to_int-digits", m.StrToInt(S("007")), I(7)),
+        ("08ceb8f str.to_int-4301-digits", m.StrToInt(S("0" * 4301 + "1")), m.StrToInt(S("0" * 4301 + "1"))),
+        ("08ceb8f str.from_int-4301-digits", m.IntToStr(I(10 ** 4300)), m.IntToStr(I(10 ** 4300))),
+        ("8cba1ce str.at-negative", m.StrCharAt(S("ab"), I(-2)), S("")),
+        ("8cba1ce str.at-in-range", m.StrCharAt(S("ab"), I(1)), S("b")),
+        ("8cba1ce str.indexof-negative-start", m.StrIndexOf(S("abcabc"), S(""), I(-7)), I(-1)),
+        ("8cba1ce str.indexof-start-at-end", m.StrIndexOf(S("abc"), S(""), I(3)), I(3)),
+        ("8cba1ce str.indexof-start-beyond", m.StrIndexOf(S("abc"), S(""), I(4)), I(-1)),
+        ("8cba1ce str.substr-negative-start", m.StrSubstr(S("bc"), I(-2), I(1)), S("")),
+        ("8cba1ce str.substr-negative-end", m.StrSubstr(S("abc"), I(0), I(-2)), S("")),
+        ("8cba1ce str.substr-in-range", m.StrSubstr(S("abc"), I(1), I(5)), S("bc")),
+    ]
+
+
+def run_regressions(chk, st):
+    n = 0
+    with EnvCtx() as env:
+        for name, f, expected in regression_cases(env.formula_manager):
+            n += 1
+            r, exc, _ = impl_simplify(env, f)
+            if r is not expected:
+                chk.violation({"kind": "input", "stream": "regression", "what": "repaired finding is back: %s" % name,
+                               "minimal_formula": ser(f), "observed": ("raises %s" % exc) if r is None else ser(r),
+                               "expected": ser(expected),
+                               "repro": REPLAY_HEADER + rebuild_text(f) + "\nprint(f.simplify())"},
+                              key="regression:%s" % name)
+            st.add(env, f, "regression")
+    return n
 
 
 # ----------------------------------------------------------------------------------------------
@@ -969,29 +1034,6 @@ def prim_cases(rnd, tier):
     for v in small + bigs + [10 ** 4299, 10 ** 4300 - 1, 10 ** 4300, -(10 ** 4300), 10 ** 4300 + 1] + [rnd.randint(-10 ** 40, 10 ** 40) for _ in range(40)]:
         s = py_str(v)
         out.append(("str(int)", "(os_eqb (py_str_of_int %s) %s)" % (zl(v), "None" if s is None else "(Some %s)" % zlist(s))))
-    # math.floor(float(l) / r), math.ceil(float(l) / r)
-    import math
-
-    def fdiv(l, r, f):
-        try:
-            return f(float(l) / r)
-        except OverflowError:
-            return None
-    ls = small + bigs + [2 ** 53, 2 ** 53 + 1, 2 ** 53 + 2, 2 ** 53 + 3, 2 ** 54 + 2, 2 ** 54 + 6, 10 ** 17 + 1, 2 ** 62 - 1, 2 ** 1023,
-                         2 ** 1024 - 2 ** 970, 2 ** 1024 - 2 ** 970 - 1, 2 ** 1024 - 1, 2 ** 1024, 10 ** 400, -(2 ** 1024), 3 * 2 ** 70 + 1]
-    rs = [1, -1, 2, 3, -3, 7, 10, 49, 2 ** 53 + 1, 2 ** 60, 10 ** 20, 2 ** 1023, 2 ** 1024 - 1, 2 ** 1024, 10 ** 400, -(10 ** 20) - 1]
-    pairs = list(itertools.product(ls, rs))
-    for _ in range(300 if tier == "quick" else 3000):
-        a = rnd.randint(-2 ** rnd.randint(1, 200), 2 ** rnd.randint(1, 200))
-        b = rnd.choice([rnd.randint(1, 100), rnd.randint(1, 2 ** rnd.randint(1, 120)), -rnd.randint(1, 10 ** 6)])
-        pairs.append((a, b))
-    for _ in range(200 if tier == "quick" else 2000):   # quotients next to an integer / a rounding boundary
-        b = rnd.randint(1, 2 ** rnd.randint(1, 60))
-        qq = rnd.randint(1, 2 ** rnd.randint(1, 70))
-        pairs.append((b * qq + rnd.choice([-1, 0, 1]), b * rnd.choice([1, -1])))
-    for l, r in pairs:
-        out.append(("float-div-floor", eqo % ("py_float_div_floor %s %s" % (zl(l), zl(r)), zopt(fdiv(l, r, math.floor)))))
-        out.append(("float-div-ceil", eqo % ("py_float_div_ceil %s %s" % (zl(l), zl(r)), zopt(fdiv(l, r, math.ceil)))))
     # Fraction arithmetic
     fr = [Fraction(a, b) for a in (-3, -1, 0, 1, 2, 5) for b in (1, 2, 3, 7)]
 
@@ -1065,8 +1107,19 @@ class Stream(object):
         self.findings = {}
         self.ninterp = 3 if tier == "quick" else 8
         self.nontrivial = 0
+        self.stream_time = {}
+        self.slow = []
 
     def add(self, env, f, stream):
+        t0 = time.time()
+        try:
+            self._add(env, f, stream)
+        finally:
+            dt = time.time() - t0
+            if dt > 0.5:
+                self.slow.append((round(dt, 2), stream, ser(f, 200)))
+
+    def _add(self, env, f, stream):
         r, exc, records = impl_simplify(env, f, self.cov)
         try:
             row = case_row(f, r, records)
@@ -1111,7 +1164,8 @@ def run_simplify(chk, rnd, tier):
                 t = rnd.choice(g.types) if rnd.random() < 0.5 else BOOL
                 f = g.gen(t, rnd.randint(1, 5))
                 st.add(env, f, "random")
-    chk.note("random stream: %d cases in %.1fs" % (len(st.rows), time.time() - t0))
+    nreg = run_regressions(chk, st)
+    chk.note("random stream + %d regression cases: %d cases in %.1fs" % (nreg, len(st.rows), time.time() - t0))
     # ---- directed ----
     t1 = time.time()
     plan = [("bool", lambda d: d.gen_bool()), ("int", lambda d: d.gen_arith(INT)), ("real", lambda d: d.gen_arith(REAL)),
@@ -1121,6 +1175,7 @@ def run_simplify(chk, rnd, tier):
     for w in ((1, 2, 3, 4) if quick else (1, 2, 3, 4, 5)):
         plan.append(("bv-exhaustive-%d" % w, lambda d, w=w: d.gen_bv_exhaustive([w])))
     for name, fn in plan:
+        tp = time.time()
         with EnvCtx() as env:
             d = Directed(env, rnd, tier)
             fs = fn(d)
@@ -1130,7 +1185,8 @@ def run_simplify(chk, rnd, tier):
                     continue
                 seen.add(f)
                 st.add(env, f, name)
-    chk.note("directed stream: %d cases in %.1fs" % (len(st.rows) - st.per_stream.get("random", 0), time.time() - t1))
+        st.stream_time[name] = round(time.time() - tp, 1)
+    chk.note("directed stream: %d cases in %.1fs  %s" % (len(st.rows) - st.per_stream.get("random", 0), time.time() - t1, st.stream_time))
     # ---- model inside Coq ----
     t2 = time.time()
     files = write_case_files(chk.dir, "simp", st.rows, 250)
@@ -1138,15 +1194,26 @@ def run_simplify(chk, rnd, tier):
     chk.note("model evaluated on %d cases (%d files) in %.1fs: %d disagreements, %d file errors"
              % (len(st.rows), len(files), time.time() - t2, len(bad), len(errs)))
     ml = modelled_lines()
-    uncovered = {}
+    src = open(SIMPLIFIER_FILE).read().split("\n")
+
+    def excused(name, l):
+        """lines no generated input can reach: the ALGEBRAIC_CONSTANT branches (need z3's Numeral, absent
+        here and outside core/Syntax.v) and the dead second rule of walk_le (`sr.is_zero() and sr.is_minus()`)"""
+        ctx = " ".join(src[max(0, l - 5):l])
+        if "lgebraic" in ctx or "Numeral" in ctx:
+            return True
+        if name == "walk_le" and ("x, y = sr.arg(0), sr.arg(1)" in src[l - 1] or "LE(x, y)" in src[l - 1]):
+            return "sr.is_zero() and sr.is_minus()" in " ".join(src[max(0, l - 3):l])
+        return False
+    uncovered, unreachable = {}, {}
     total = 0
     hit = 0
     for name, ls in sorted(ml.items()):
         total += len(ls)
         miss = [l for l in ls if l not in st.cov.lines]
         hit += len(ls) - len(miss)
-        if miss:
-            uncovered[name] = miss
+        for l in miss:
+            (unreachable if excused(name, l) else uncovered).setdefault(name, []).append(l)
     corr = chk.cov.setdefault("correspondence", {})
     corr["simplify"] = {"cases": len(st.rows), "per_stream": st.per_stream, "nontrivial_cases": st.nontrivial,
                         "disagreements": len(bad), "case_file_errors": len(errs),
@@ -1156,7 +1223,15 @@ def run_simplify(chk, rnd, tier):
     allops = set(op.op_to_str(o) for o in op.ALL_TYPES if o != op.ALGEBRAIC_CONSTANT)
     chk.cov["operators_not_generated"] = sorted(allops - set(st.ophist))
     chk.cov["simplifier_line_coverage"] = {"file": "pysmt/simplifier.py", "methods": len(ml), "executable_lines": total,
-                                           "executed": hit, "not_executed": uncovered}
+                                           "executed": hit, "not_executed": uncovered,
+                                           "not_executed_unreachable_here": unreachable,
+                                           "unreachable_reason": "ALGEBRAIC_CONSTANT branches (need z3's Numeral; not in core/Syntax.v) and "
+                                                                 "the dead test `sr.is_zero() and sr.is_minus()` of walk_le"}
+    chk.cov["simplifier_methods"] = {
+        "modelled": sorted(ml),
+        "not_modelled": ["walk_debug / validate_simplifications (needs a solver)", "BddSimplifier",
+                         "ALGEBRAIC_CONSTANT branches of walk_plus / walk_times / walk_minus / walk_pow / walk_identity"]}
+    chk.cov["slowest_cases"] = sorted(st.slow, reverse=True)[:10]
     chk.cov["oracle"] = dict(st.stats, findings=st.findings, first_example_per_finding=FIRST)
     examples = []
     for i in bad[:6]:
@@ -1169,9 +1244,11 @@ def run_simplify(chk, rnd, tier):
             json.dump([{"index": i, "stream": st.meta[i][0], "formula": st.meta[i][1]} for i in bad], fh, indent=1)
     for e in errs[:2]:
         chk.note("case file error: %s" % e["error"][-500:])
-    if quick is False and uncovered:
-        chk.note("thorough tier: un-executed modelled lines: %s" % uncovered)
-    return (not bad and not errs), st
+    lines_ok = True
+    if uncovered:
+        chk.note("modelled lines not executed by any generated case: %s" % uncovered)
+        lines_ok = quick          # the tie does not reach these branches: fails the thorough tier
+    return (not bad and not errs and lines_ok), st
 
 
 def run(tier):
@@ -1185,7 +1262,7 @@ def run(tier):
     chk.note("proof part: %s" % ("ok" if ok else "FAILED"))
     lib.clean_cases(chk.dir)
     only = os.environ.get("VERIF_C01_ONLY", "")      # development aid: "prims" or "simplify"
-    prims_ok = run_prims(chk, rnd, tier) if only != "simplify" else True
+    prims_ok = run_prims(chk, random.Random(chk.seed * 7919 + 1), tier) if only != "simplify" else True
     chk.note("PyPrims vs CPython: %s" % ("ok" if prims_ok else "DISAGREEMENT"))
     corr_ok, st = run_simplify(chk, rnd, tier) if only != "prims" else (True, None)
     if not ok or not prims_ok or not corr_ok:
@@ -1205,7 +1282,11 @@ def run(tier):
                            "searched": "every generated case was evaluated by the reference evaluator against the "
                                        "implementation's result; none differs in type, symbols or value (other than known findings)"},
                           found_input=False)
-    return chk.finish(TRUSTED, ASSUMPTIONS, RULE)
+    rc = chk.finish(TRUSTED, ASSUMPTIONS, RULE, extra={"partial_run": only} if only else None)
+    if only and rc == 0:
+        chk.note("VERIF_C01_ONLY=%s: partial run (development aid), not a verdict" % only)
+        return 3
+    return rc
 
 
 def replay(path):
